@@ -234,16 +234,6 @@ theorem resSize_shift (o' : Op) (y : Expr) (h : o'.type = 8 ∨ o' = Op.or ∨ o
   · simp [resSize, Op.type]
   · simp [resSize, Op.type]
 
-theorem WF_clearLeftSf (e : Expr) : WF (clearLeftSf e) ↔ WF e := by
-  unfold clearLeftSf
-  split
-  · simp only [WF, size_cst]
-  · rfl
-
-theorem size_clearLeftSf (e : Expr) : (clearLeftSf e).size = e.size := by
-  unfold clearLeftSf
-  split <;> rfl
-
 theorem foldl_add_size (l : List Expr) (k : Nat) : l.foldl (fun a x => a + x.size) k = k + l.foldl (fun a x => a + x.size) 0 := by
   induction l generalizing k with
   | nil => simp
@@ -595,61 +585,25 @@ theorem helperRot_step (o : Op) (x n : Expr) (hx : WF x) (hn : WF n) (ho : o.typ
       rw [resSize_shift _ _ (Or.inl lsl8)] at h1
       rw [resSize_shift _ _ (Or.inl lsr8)] at h2
       exact tail t1 t2 h1.1 h1.2 h2.1 h2.2
-  · split
-    · split
-      · apply Post_bind; intro t1 ht1
-        apply Post_bind; intro k hk
-        apply Post_bind; intro t2 ht2
-        have h1 := ih.api Op.lsr x n hx hn (by intro h; simp [Op.type] at h) t1 ht1
-        have hk' := ih.api Op.sub _ n hcn hn (by intro h; simp [Op.type] at h) k hk
-        have h2 := ih.api Op.lsl _ k hx' hk'.1 (by intro h; simp [Op.type] at h) t2 ht2
-        rw [resSize_shift _ _ (Or.inl lsr8)] at h1
-        rw [resSize_shift _ _ (Or.inl lsl8), size_setSf] at h2
-        exact tail t1 t2 h1.1 h1.2 h2.1 h2.2
-      · apply Post_bind; intro t1 ht1
-        apply Post_bind; intro k hk
-        apply Post_bind; intro t2 ht2
-        have h1 := ih.api Op.lsl x n hx hn (by intro h; simp [Op.type] at h) t1 ht1
-        have hk' := ih.api Op.sub _ n hcn hn (by intro h; simp [Op.type] at h) k hk
-        have h2 := ih.api Op.lsr _ k hx hk'.1 (by intro h; simp [Op.type] at h) t2 ht2
-        rw [resSize_shift _ _ (Or.inl lsl8)] at h1
-        rw [resSize_shift _ _ (Or.inl lsr8)] at h2
-        exact tail _ t2 ((WF_clearLeftSf _).mpr h1.1) (by rw [size_clearLeftSf]; exact h1.2) h2.1 h2.2
-    · intro e he
-      have := mkOp_spec o x n e hx hn (by intro h; omega) he
-      rw [resSize_shift o x (Or.inl ho)] at this
-      exact this
+  · intro e he
+    have := mkOp_spec o x n e hx hn (by intro h; omega) he
+    rw [resSize_shift o x (Or.inl ho)] at this
+    exact this
 
 theorem callOp_step (o : Op) (l r : Expr) (hl : WF l) (hr : WF r) (h4 : o.type = 4 → l.size = r.size) :
     Post (resSize o l) (callOp cfg (fuel + 1) o l r) := by
   rw [callOp.eq_def]; dsimp only
-  have hl' : WF (if o.unsignedCall = true then l.setSf false else l) := by
-    split
-    · exact (WF_setSf _ _).mpr hl
-    · exact hl
-  have hr' : WF (if o.unsignedCall = true then r.setSf false else r) := by
-    split
-    · exact (WF_setSf _ _).mpr hr
-    · exact hr
-  have sl : (if o.unsignedCall = true then l.setSf false else l).size = l.size := by split <;> simp
-  have sr : (if o.unsignedCall = true then r.setSf false else r).size = r.size := by split <;> simp
-  have rsz : resSize o (if o.unsignedCall = true then l.setSf false else l) = resSize o l := by
-    unfold resSize; rw [sl]
   split
-  · have := ih.helperCmp Op.ltu _ _ hl' hr' (by rw [sl, sr]; exact h4 rfl) rfl
+  · have := ih.helperCmp Op.ltu _ _ hl hr (h4 rfl) rfl
     simpa [resSize, Op.type] using this
-  · have := ih.helperCmp Op.geu _ _ hl' hr' (by rw [sl, sr]; exact h4 rfl) rfl
+  · have := ih.helperCmp Op.geu _ _ hl hr (h4 rfl) rfl
     simpa [resSize, Op.type] using this
-  · have := ih.helperRot Op.ror _ _ hl' hr' rfl
-    rw [sl] at this
+  · have := ih.helperRot Op.ror _ _ hl hr rfl
     simpa [resSize, Op.type] using this
-  · have := ih.helperRot Op.rol _ _ hl' hr' rfl
-    rw [sl] at this
+  · have := ih.helperRot Op.rol _ _ hl hr rfl
     simpa [resSize, Op.type] using this
   · exact Post_error _ _
-  · have := ih.api o _ _ hl' hr' (by intro h; rw [sl, sr]; exact h4 h)
-    rw [rsz] at this
-    exact this
+  · exact ih.api o _ _ hl hr h4
 
 theorem giSpec_of_ih : GiSpec (fun y a b => getitem cfg fuel y (a : Int) (b : Int)) := by
   intro x a b r hx hab hb h
@@ -1147,9 +1101,9 @@ theorem eqn2snd_step (opts : Opts) (o : Op) (l : Expr) (rv rs : Nat) (rf : Bool)
   -- the `== bit` rules
   have bitrule : o.pm = o.pm → Post size
       (if (rs == 1 && o == Op.eq) = true then
-          if cstValue rv rs rf = 1 then Except.ok l else apiNot cfg fuel l
+          if (rv == 1) = true then Except.ok l else apiNot cfg fuel l
         else if (rs == 1 && o == Op.neq) = true then
-          if cstValue rv rs rf = 1 then apiNot cfg fuel l else Except.ok l
+          if (rv == 1) = true then apiNot cfg fuel l else Except.ok l
         else eqn2tail cfg fuel opts o l (cst rv rs rf) size sf prop) := by
     intro _
     have hsize : ∀ o', (o' = Op.eq ∨ o' = Op.neq) → o = o' → size = l.size ∧ l.size = 1 → True := fun _ _ _ _ => trivial
